@@ -328,6 +328,13 @@ pub unsafe extern "C" fn SFileCreateArchive(
 #[no_mangle]
 pub extern "C" fn SFileCloseArchive(handle: HANDLE) -> bool {
     if let Some(handle_id) = handle_to_id(handle) {
+        // Take the archive out of the table first: from here on no call can look it
+        // up, so no new file or search handle can be created for it. (SFileOpenFileEx
+        // holds ARCHIVES until its handle is registered, so every handle created
+        // before this point is visible to the purge below.) Purging first would let a
+        // concurrent SFileOpenFileEx register a handle that survives the close.
+        let closed = ARCHIVES.lock().unwrap().remove(&handle_id);
+
         // Remove any open files from this archive
         FILES
             .lock()
@@ -340,8 +347,7 @@ pub extern "C" fn SFileCloseArchive(handle: HANDLE) -> bool {
             .unwrap()
             .retain(|_, find| find.archive_handle != handle_id);
 
-        // Close the archive
-        if ARCHIVES.lock().unwrap().remove(&handle_id).is_some() {
+        if closed.is_some() {
             set_last_error(ERROR_SUCCESS);
             true
         } else {
@@ -2022,6 +2028,16 @@ pub unsafe extern "C" fn SFileFindFirstFile(
 
         find_handle.current_index += 1; // Move to next for SFileFindNextFile
         FIND_HANDLES.lock().unwrap().insert(handle_id, find_handle);
+
+        // ARCHIVES was released after listing: the archive may have been closed in
+        // the meantime, and its search handles purged before this one was registered.
+        // SFileCloseArchive removes the archive before it purges, so an archive that
+        // is still present here will purge this handle when it is closed.
+        if !ARCHIVES.lock().unwrap().contains_key(&archive_id) {
+            FIND_HANDLES.lock().unwrap().remove(&handle_id);
+            set_last_error(ERROR_INVALID_HANDLE);
+            return INVALID_HANDLE_VALUE;
+        }
 
         set_last_error(ERROR_SUCCESS);
         id_to_handle(handle_id)
